@@ -227,11 +227,32 @@ func main() {
 	httpserver.GracefulTimeout = 40 * time.Millisecond
 	dir := kit.TempDir("c07")
 	defer os.RemoveAll(dir)
-	base := 19000 + *kit.FlagWorker*8
-	p0, p1, pBusy := base, base+1, base+2
-	busy, err := net.Listen("tcp", fmt.Sprintf("127.0.0.1:%d", pBusy))
-	if err != nil {
-		rep.Broken("cannot reserve port %d: %v", pBusy, err)
+	// three consecutive loopback ports of this worker's own: the third is held for the whole run (it is the "busy" port of the
+	// reloads that fail at listen, and it marks the block as taken for other runs of this check on the machine)
+	var p0, p1, pBusy int
+	var busy net.Listener
+	for k := 0; busy == nil && k < 200; k++ {
+		base := 19000 + *kit.FlagWorker*8 + k*160
+		l, err := net.Listen("tcp", fmt.Sprintf("127.0.0.1:%d", base+2))
+		if err != nil {
+			continue
+		}
+		free := true
+		for _, p := range []int{base, base + 1} {
+			if t, err := net.Listen("tcp", fmt.Sprintf("127.0.0.1:%d", p)); err == nil {
+				t.Close()
+			} else {
+				free = false
+			}
+		}
+		if !free {
+			l.Close()
+			continue
+		}
+		busy, p0, p1, pBusy = l, base, base+1, base+2
+	}
+	if busy == nil {
+		rep.Broken("no block of three free loopback ports found from 19000 upwards")
 	}
 	defer busy.Close()
 	config := func(v int, kind string) string {
